@@ -44,6 +44,7 @@ type TermCtx struct {
 	tableID map[string]int
 	subst   map[*Term]*Term // concretisations learned on this path
 	nvars   int
+	supp    map[*Term]*suppInfo
 	HasHard bool // some multiplication/division term exists on this path
 	Vars    []*Term
 }
@@ -144,7 +145,7 @@ func (c *TermCtx) mk(op string, k Kind, w int, p0, p1 int, args ...*Term) *Term 
 			args[i] = s
 		}
 	}
-	if op == "bvmul" || op == "bvudiv" || op == "bvurem" || op == "bvsdiv" || op == "bvsrem" {
+	if (op == "bvmul" || op == "bvudiv" || op == "bvurem" || op == "bvsdiv" || op == "bvsrem") && w > 16 {
 		c.HasHard = true
 	}
 	if len(args) == 2 && commutative[op] && args[0].id > args[1].id {
@@ -451,6 +452,25 @@ func (c *TermCtx) BVBin(op string, a, b *Term) *Term {
 			return a
 		}
 	}
+	// narrow divisions whose operands provably fit in 16 bits (both non-negative, so the signed
+	// and unsigned operators agree): the 64-bit divider circuit is what stalls the bit-blaster
+	if w > 16 && (op == "bvudiv" || op == "bvurem" || op == "bvsdiv" || op == "bvsrem") {
+		if c.rangeMax(a) < 1<<15 && c.rangeMax(b) < 1<<15 {
+			nop := map[string]string{"bvudiv": "bvudiv", "bvsdiv": "bvudiv", "bvurem": "bvurem", "bvsrem": "bvurem"}[op]
+			na, nb := c.Extract(15, 0, a), c.Extract(15, 0, b)
+			if nb.IsConst() && nb.CU == 0 {
+				return c.mk(op, KBV, w, 0, 0, a, b)
+			}
+			var r *Term
+			if na.IsConst() && nb.IsConst() {
+				v, _ := foldBV(nop, 16, na.CU, nb.CU)
+				r = c.BVConst(16, v)
+			} else {
+				r = c.mk(nop, KBV, 16, 0, 0, na, nb)
+			}
+			return c.ZExt(r, w)
+		}
+	}
 	return c.mk(op, KBV, w, 0, 0, a, b)
 }
 
@@ -688,6 +708,31 @@ func (c *TermCtx) rangeMax(t *Term) uint64 {
 			m := c.rangeMax(t.Args[0])
 			if m < mask(t.W) {
 				return m
+			}
+		}
+	case "bvadd", "bvor":
+		a, b := c.rangeMax(t.Args[0]), c.rangeMax(t.Args[1])
+		if a+b >= a && a+b <= mask(t.W) {
+			return a + b
+		}
+	case "bvmul":
+		a, b := c.rangeMax(t.Args[0]), c.rangeMax(t.Args[1])
+		if a != 0 && b != 0 && a <= mask(t.W)/b {
+			return a * b
+		}
+		if a == 0 || b == 0 {
+			return 0
+		}
+	case "bvudiv", "bvsdiv", "bvurem", "bvsrem":
+		a := c.rangeMax(t.Args[0])
+		if a < 1<<62 {
+			return a
+		}
+	case "bvshl":
+		if t.Args[1].IsConst() && t.Args[1].CU < 64 {
+			a := c.rangeMax(t.Args[0])
+			if a <= mask(t.W)>>t.Args[1].CU {
+				return a << t.Args[1].CU
 			}
 		}
 	case "table":
